@@ -478,6 +478,9 @@ func (m *monC20) probeBalance(r *Runner, s *Snap, pk PosKey) {
 				// the failing send is the implicit reward claim (custody covers the amount): open finding C12
 				cls = "balance-not-undelegatable:reward-pool-shortfall"
 			}
+			if r.strandedPos(s, pk.Val, pk.Denom) {
+				cls = "balance-not-undelegatable:validator-removed-by-staking-and-created-again"
+			}
 			r.Violate("C20.d", cls, fmt.Sprintf("%s: reported balance %s cannot be undelegated: %s", pk, bal, errs))
 			if r.failed() {
 				return
@@ -557,6 +560,14 @@ func (m *monC20) listingErrClass(s *Snap, e string) string {
 		for _, pk := range s.DelOrder {
 			if _, ok := s.Assets[pk.Denom]; !ok {
 				return "delegation-of-deleted-asset"
+			}
+		}
+	}
+	// a delegation record whose validator x/staking has removed (open finding: the records outlive the validator)
+	if strings.Contains(e, "does not exist") || strings.Contains(e, "not found") {
+		for _, pk := range s.DelOrder {
+			if _, ok := s.StVals[pk.Val]; !ok {
+				return "delegation-on-validator-removed-by-staking"
 			}
 		}
 	}
